@@ -187,7 +187,7 @@ func (boundary) Name() string     { return "boundary" }
 func (boundary) NewPlan() any     { return &BPlan{} }
 func (boundary) Units(tier string) int {
 	if tier == "thorough" {
-		return 3000000
+		return 20000000
 	}
 	return 220000
 }
